@@ -2,6 +2,7 @@ package main
 
 import (
 	"fmt"
+	"os"
 	"go/constant"
 	"go/token"
 	"go/types"
@@ -360,7 +361,10 @@ func (rs *reflState) retParam(g *ssa.Function) (int, bool) {
 		}
 	}
 	for _, ret := range returnsOf(g) {
-		visit(ret.Results[0], map[ssa.Value]bool{})
+		visit(returnValues(ret)[0], map[ssa.Value]bool{})
+		if os.Getenv("GQLVET_DEBUG") != "" {
+			fmt.Fprintf(os.Stderr, "retParam %s: %T %s ok=%v j=%d\n", g.Name(), ret.Results[0], ret.Results[0].Name(), okAll, j)
+		}
 	}
 	if okAll && j >= 0 {
 		rs.retFromParam[g] = j
@@ -584,14 +588,15 @@ func runC14(c *Ctx) {
 	// ---- R3 null only for nullable
 	r3 := c.Rule("R3", "null is accepted only for nullable types", 3)
 	for _, ret := range returnsOf(vt) {
-		if !isNilConst(ret.Results[1]) {
+		rvals := returnValues(ret)
+		if !isNilConst(rvals[1]) {
 			continue
 		}
 		st := na.stateAt(ret)
 		if st == nil {
 			continue
 		}
-		key := reflKey(ret.Results[0])
+		key := reflKey(rvals[0])
 		bad := false
 		for _, d := range st {
 			if rs.valid(d, key) == 1 {
@@ -724,7 +729,7 @@ func runC14(c *Ctx) {
 			rr := reachAvoiding(entry, func(b *ssa.BasicBlock) bool { return b == nd.hdr }, nil)
 			skipped := false
 			for b := range rr {
-				if ret, ok := b.Instrs[len(b.Instrs)-1].(*ssa.Return); ok && isNilConst(ret.Results[1]) {
+				if ret, ok := b.Instrs[len(b.Instrs)-1].(*ssa.Return); ok && isNilConst(returnValues(ret)[1]) {
 					// returns of a possibly-null value are R3's business (they precede the case)
 					if b == entry {
 						continue
